@@ -324,6 +324,12 @@ func (l *lexer) endPos() position {
 			w = 1
 		}
 
+		// the last character of the word may be wider than one byte:
+		// it is the end position, it is not stepped over
+		if offset+w >= endOffset {
+			break
+		}
+
 		if r == '\n' {
 			endPos.line++
 			endPos.column = 0
